@@ -133,6 +133,7 @@ public:
 	Handle appendListener(const Event & event, const Callback & callback)
 	{
 		std::lock_guard<Mutex> lockGuard(listenerMutex);
+		EVENTPP_VERIF_POINT("cs.disp.append");
 
 		return eventCallbackListMap[event].append(callback);
 	}
@@ -140,6 +141,7 @@ public:
 	Handle prependListener(const Event & event, const Callback & callback)
 	{
 		std::lock_guard<Mutex> lockGuard(listenerMutex);
+		EVENTPP_VERIF_POINT("cs.disp.prepend");
 
 		return eventCallbackListMap[event].prepend(callback);
 	}
@@ -147,6 +149,7 @@ public:
 	Handle insertListener(const Event & event, const Callback & callback, const Handle & before)
 	{
 		std::lock_guard<Mutex> lockGuard(listenerMutex);
+		EVENTPP_VERIF_POINT("cs.disp.insert");
 
 		return eventCallbackListMap[event].insert(callback, before);
 	}
@@ -265,6 +268,7 @@ private:
 		-> typename std::conditional<std::is_const<T>::value, const CallbackList_ *, CallbackList_ *>::type
 	{
 		std::lock_guard<Mutex> lockGuard(self->listenerMutex);
+		EVENTPP_VERIF_POINT("cs.disp.find");
 
 		auto it = self->eventCallbackListMap.find(e);
 		if(it != self->eventCallbackListMap.end()) {
